@@ -160,8 +160,23 @@ def oracle(case, res, extra):
                     asg = {n: rng.randint(1, 6) for n in names}
                 signal.setitimer(signal.ITIMER_VIRTUAL, TIMEOUT_S)
                 try:
-                    evaluate(cr, asg)
+                    ev_res = evaluate(cr, asg)
                     res.stats["evaluate_ok"] += 1
+                    if k == 2:
+                        # every input has a number now (no port variable is left among the inputs): the evaluated result must
+                        # also EXPORT without an internal exception
+                        try:
+                            ev_res.to_qref()
+                            res.stats["evaluated_result_exported"] += 1
+                        except (BartiqCompilationError, BartiqPreprocessingError):
+                            res.stats["export_own_error"] += 1
+                        except _Timeout:
+                            raise
+                        except Exception as e:
+                            res.violation("failing-input", f"exporting the evaluated result of a well-formed routine raised {type(e).__name__}",
+                                          {"qref": case.qref, "assignments_in_order": list(asg.items()), "history": "compile, evaluate (all inputs numeric), to_qref"},
+                                          repr(e)[:300], "a document")
+                            return
                 except (BartiqCompilationError, BartiqPreprocessingError):
                     res.stats["evaluate_own_error"] += 1
                 except _Timeout:
